@@ -39,7 +39,7 @@ Definition entry_ok (e : log_entry) : Prop :=
   match e with
   | LCommitChan d => DbInv d
   | LCommitUsage _ => True
-  | LFrame _ _ clean => clean = true
+  | LFrame _ _ clean _ => clean = true
   end.
 
 Definition log_ok (l : list log_entry) : Prop := Forall entry_ok l.
